@@ -227,14 +227,14 @@ class RowsSpy:
             setattr(self.cc, name, fn)
 
 
-def check_collapse_vars(ck, ds, out, gref, goth, custom, what_case):
+def check_collapse_vars(ck, ds, out, gref, goth, fns, what_case):
     """which variables a collapsed dataset must (not) contain, and on which dimensions:
     reference group: every variable kept (time/lat/lon at the root), collocation dimension first and
     renamed `collocation`; other group: `<var>_<collapser>` for every data variable with dims
     (`collocation`, remaining dims in source order), its time/lat/lon and `__*` variables dropped;
     variables of either group that do not live on the collocation dimension copied unchanged."""
-    fns = ["mean", "std", "number"] + (["sum", "first"] if custom else [])
     bad = []
+    expected = set()
     for name in ds.variables:
         if "/" not in name:
             continue
@@ -244,12 +244,14 @@ def check_collapse_vars(ck, ds, out, gref, goth, custom, what_case):
         v = ds[name]
         cdim = f"{g}/collocation"
         if cdim not in v.dims:
+            expected.add(name)
             if name not in out.variables or tuple(out[name].dims) != tuple(v.dims) or not nan_equal(out[name].values, v.values):
                 bad.append(f"{name} (not on the collocation dimension) is not copied unchanged")
             continue
         rest = tuple(d for d in v.dims if d != cdim)
         if g == gref:
             oname = local if local in SKIP_LOCAL else name
+            expected.add(oname)
             if oname not in out.variables:
                 bad.append(f"reference variable {name} is missing (expected as {oname})")
             elif tuple(out[oname].dims) != ("collocation",) + rest:
@@ -263,60 +265,146 @@ def check_collapse_vars(ck, ds, out, gref, goth, custom, what_case):
         else:
             for fn in fns:
                 oname = f"{name}_{fn}"
+                expected.add(oname)
                 if oname not in out.variables:
                     bad.append(f"{oname} is missing")
                 elif tuple(out[oname].dims) != ("collocation",) + rest:
                     bad.append(f"{oname} has dims {tuple(out[oname].dims)}, expected {('collocation',) + rest}")
             if name in out.variables:
                 bad.append(f"{name} of the collapsed group appears uncollapsed")
+    extra = [o for o in out.variables if o not in expected and o not in out.dims]
+    if extra:
+        bad.append(f"unexpected variables {extra[:6]} (collapsers in effect: {list(fns)})")
     for b in bad[:3]:
         ck.violation("collapse-vars", f"collapse(reference={gref}): {b}", what_case)
 
 
-def check_collapse(ck, ds, case, valid, use_model, tag, custom):
-    """collapse with either group as reference: oracle + model"""
+DEFAULT_FNS = ("mean", "std", "number")
+_OUTNAMES = {}
+
+
+def custom_fn(fid, captured=None):
+    """the user collapser functions the harness passes (fid = stable id used in cases / by the oracle)"""
+    import numpy as np
+    if fid == "nansum":
+        f = lambda m, a: np.nansum(m, axis=a)                                   # noqa
+    elif fid == "first":
+        f = lambda m, a: m[0]                                                   # noqa
+    elif fid == "nanmax0":
+        f = lambda m, a: np.max(np.where(np.isnan(m), -np.inf, m), axis=a)      # noqa
+    elif fid == "count2":
+        f = lambda m, a: 2 * np.count_nonzero(~np.isnan(m), axis=a)             # noqa
+    else:
+        raise vlib.InfraError(f"unknown collapser id {fid}")
+    if captured is None:
+        return f
+
+    def cap(m, a, _f=f, _c=captured):
+        _c.setdefault("m", []).append(np.array(m, copy=True))
+        return _f(m, a)
+    return cap
+
+
+def stat_mismatch(fid, g, vals):
+    """explicit-loop oracle for one statistic: g = value from the real code, vals = the partner values
+    (floats, NaN allowed) of one reference point and one flattened extra index.  None if fine."""
+    import numpy as np
+    g = float(g)
+    xs = [int(v) for v in vals if not math.isnan(v)]
+    cnt, sm = len(xs), sum(xs)
+    if fid == "number":
+        return None if g == cnt else ("number", g, cnt)
+    if fid == "count2":
+        return None if g == 2 * cnt else ("custom 2*count", g, 2 * cnt)
+    if fid == "nansum":
+        return None if g == float(sm) else ("custom nansum", g, sm)
+    if fid == "nanmax0":
+        want = float(max(xs)) if xs else float("-inf")
+        return None if g == want else ("custom max", g, want)
+    if fid == "first":
+        # row 0 of the matrix handed to a collapser holds one partner (which one is internal)
+        ok = any((math.isnan(v) and math.isnan(g)) or v == g for v in vals)
+        return None if ok else ("custom row 0", g, f"one of {vals[:8]}")
+    if cnt == 0:
+        return None if math.isnan(g) else (f"{fid} of an empty bin", g, "nan")
+    if fid == "mean":
+        if math.isnan(g) or round(g * cnt) != sm or abs(g - sm / cnt) > 1e-12 * max(1.0, abs(sm / cnt)):
+            return ("mean", g, f"{sm}/{cnt}")
+        return None
+    if fid == "std":
+        ld = np.longdouble
+        mu = ld(sm) / ld(cnt)
+        acc = ld(0)
+        for x in xs:
+            acc += (ld(x) - mu) * (ld(x) - mu)
+        sd = float(np.sqrt(acc / ld(cnt)))
+        return None if (not math.isnan(g) and abs(g - sd) <= 1e-12 * max(1.0, sd)) else ("std", g, sd)
+    raise vlib.InfraError(f"unknown statistic {fid}")
+
+
+def collapser_spec(custom):
+    """custom: False/None | True | {output name: function id}"""
+    if isinstance(custom, dict):
+        return dict(custom)
+    return {"sum": "nansum", "first": "first"} if custom else {}
+
+
+def check_collapse(ck, ds, case, valid, use_model, tag, custom, refs=(0, 1)):
+    """collapse with either group as reference: oracle + model.  `custom` selects the user collapsers
+    (see collapser_spec); a name among mean/std/number overrides the default statistic."""
     import numpy as np
     from typhon.collocations import collapse
     groups = ds["Collocations/group"].values.tolist()
     pairs = np.asarray(ds["Collocations/pairs"].values)
     n = pairs.shape[1]
+    spec = collapser_spec(custom)
+    out_names = list(DEFAULT_FNS) + [k for k in spec if k not in DEFAULT_FNS]     # python dict-merge order
+    effective = {name: spec.get(name, name) for name in out_names}                # output name -> function id
     lines, expect = [], []
-    for ref in (0, 1):
+    for ref in refs:
         gref, goth = groups[ref], groups[1 - ref]
         refidx, othidx = pairs[ref], pairs[1 - ref]
         R, _ = flat_rows(ds, gref)
         O, layout = flat_rows(ds, goth)
         captured = {}
         coll = None
-        if custom:
-            def cap(m, a, _c=captured):
-                _c.setdefault("m", []).append(np.array(m, copy=True))
-                return np.nansum(m, axis=a)
-            coll = {"sum": cap, "first": lambda m, a: m[0]}
+        if spec:
+            coll = {}
+            for k, (name, fid) in enumerate(spec.items()):
+                coll[name] = custom_fn(fid, captured if k == 0 else None)
+        coll_before = dict(coll) if coll is not None else None
         kw = {}
         if ref == 1 or n % 2 == 0:          # reference=None (default) or the explicit name; deterministic for replays
             kw["reference"] = gref
         if coll is not None:
             kw["collapser"] = coll
         err = None
+        arg = ds.copy(deep=True)
         with RowsSpy() as spy, warnings.catch_warnings():
             warnings.simplefilter("ignore")
             try:
-                out = collapse(ds.copy(deep=True), **kw)
+                out = collapse(arg, **kw)
             except Exception as e:  # noqa
                 err = exc_kind(e)
         what_case = dict(case, check=f"{tag}collapse ref={ref}")
         if valid and err is not None:
             ck.violation("collapse-exception", f"collapse(reference={gref}) raised {err} on a valid compact dataset", what_case)
+        # collapse is a function of its arguments: neither the dataset nor the collapser dict may change
+        if err is None and valid:
+            if not arg.identical(ds):
+                ck.violation("collapse-mutates-input", f"collapse(reference={gref}) modified the dataset passed in", what_case)
+            if coll is not None and (list(coll) != list(coll_before) or any(coll[k] is not coll_before[k] for k in coll)):
+                ck.violation("collapse-mutates-input", f"collapse(reference={gref}) modified the collapser dict passed in "
+                             f"(keys now {list(coll)})", what_case)
         real_stats = None
         if err is None:
             nref = ds.sizes[f"{gref}/collocation"]
-            # real outputs, [variable] -> (mean, std, number) as (U, width) matrices
+            # real outputs, [variable] -> {output name: (U, width) matrix}
             real_stats = {}
             shape_ok = True
             for local, wdt in layout:
                 got = {}
-                for fn in ["mean", "std", "number"] + (["sum", "first"] if custom else []):
+                for fn in out_names:
                     name = f"{goth}/{local}_{fn}"
                     if name not in out.variables:
                         shape_ok = False
@@ -328,9 +416,9 @@ def check_collapse(ck, ds, case, valid, use_model, tag, custom):
                         shape_ok = False
                         continue
                     a = np.asarray(v.transpose("collocation", ...).values, dtype=float)
-                    got[fn] = a.reshape(a.shape[0], -1)
+                    got[fn] = a.reshape(a.shape[0], int(np.prod(a.shape[1:], dtype=int)))
                 real_stats[local] = got
-            # --- oracle: explicit loops over the pair list
+            # --- oracle: explicit loops over the pair list, element by element (labels decide the position)
             if valid and shape_ok:
                 partners = [[] for _ in range(nref)]
                 for k in range(n):
@@ -347,60 +435,37 @@ def check_collapse(ck, ds, case, valid, use_model, tag, custom):
                     for j in range(nref):
                         for c in range(wdt):
                             vals = [O[s, col0 + c] for s in partners[j]]
-                            xs = [int(v) for v in vals if not math.isnan(v)]
-                            cnt, sm = len(xs), sum(xs)
-                            gm, gs, gn = got["mean"][j, c], got["std"][j, c], got["number"][j, c]
-                            if int(gn) != cnt:
-                                bad = (j, c, "number", float(gn), cnt)
-                            elif cnt == 0:
-                                if not (math.isnan(gm) and math.isnan(gs)):
-                                    bad = (j, c, "mean/std of empty bin", float(gm), "nan")
-                            else:
-                                if math.isnan(gm) or round(gm * cnt) != sm or abs(gm - sm / cnt) > 1e-12 * max(1.0, abs(sm / cnt)):
-                                    bad = (j, c, "mean", float(gm), f"{sm}/{cnt}")
-                                else:
-                                    ld = np.longdouble
-                                    mu = ld(sm) / ld(cnt)
-                                    acc = ld(0)
-                                    for x in xs:
-                                        acc += (ld(x) - mu) * (ld(x) - mu)
-                                    sd = float(np.sqrt(acc / ld(cnt)))
-                                    if math.isnan(gs) or abs(gs - sd) > 1e-12 * max(1.0, sd):
-                                        bad = (j, c, "std", float(gs), sd)
-                            if bad is None and custom:
-                                if float(got["sum"][j, c]) != float(sm):
-                                    bad = (j, c, "custom collapser sum", float(got["sum"][j, c]), sm)
-                                # row 0 of the matrix handed to a custom collapser holds one partner of j
-                                # (which one depends on the internal slot numbering)
-                                g0 = float(got["first"][j, c])
-                                if not any((math.isnan(v) and math.isnan(g0)) or v == g0 for v in vals):
-                                    bad = (j, c, "custom collapser row 0", g0, f"one of {vals[:8]}")
+                            for name in out_names:
+                                mm = stat_mismatch(effective[name], got[name][j, c], vals)
+                                if mm:
+                                    bad = (j, c, f"_{name} ({mm[0]})", mm[1], mm[2])
+                                    break
                             if bad:
                                 break
                         if bad:
                             break
                     if bad:
                         j, c, w, g_, e_ = bad
-                        ck.violation("collapse-stat", f"collapse(reference={gref}): {goth}/{local} {w} of reference point {j} "
-                                     f"(flattened extra index {c}) = {g_}, expected {e_} over partners {partners[j][:8]}", what_case)
+                        ck.violation("collapse-stat", f"collapse(reference={gref}, collapser={spec or None}): {goth}/{local}{w} of reference "
+                                     f"point {j} (flattened extra index {c}) = {g_}, expected {e_} over partners {partners[j][:8]}", what_case)
                     col0 += wdt
-                # reference group copied unchanged, one row per stored reference point
-                for local in data_vars(ds, gref):
-                    name = f"{gref}/{local}"
-                    if name not in out.variables or not nan_equal(
-                            out[name].transpose("collocation", ...).values,
-                            ds[name].transpose(f"{gref}/collocation", ...).values):
-                        ck.violation("collapse-reference", f"collapse(reference={gref}) changed the reference variable {name}", what_case)
-                for local in SKIP_LOCAL:
-                    if local not in out.variables or not nan_equal(out[local].values, ds[f"{gref}/{local}"].values):
-                        ck.violation("collapse-reference", f"collapse(reference={gref}): root variable {local} is not the reference group's", what_case)
         if valid and err is None:
-            check_collapse_vars(ck, ds, out, gref, goth, bool(custom), what_case)
+            check_collapse_vars(ck, ds, out, gref, goth, out_names, what_case)
         if not use_model:
             continue
+        if err is None and layout:
+            # statistics variables of the first data variable, in dataset order, vs the model's dict merge
+            pre = f"{goth}/{layout[0][0]}_"
+            real_order = [o[len(pre):] for o in out.variables if o.startswith(pre)]
+            key = tuple(spec)
+            if key not in _OUTNAMES:
+                _OUTNAMES[key] = ck.driver(["outnames " + " ".join(spec)])[0].split()
+            model_order = _OUTNAMES[key]
+            if real_order != model_order:
+                ck.disagree(f"collapse ref={ref}: statistics variables {real_order} vs model {model_order} for collapser {spec}", what_case)
         Pm, Sm = flat_rows(ds, groups[0])[0], flat_rows(ds, groups[1])[0]
         lines.append(f"collapse {ref} " + ds_tokens(pairs, Pm, Sm))
-        expect.append(("collapse", ref, err, real_stats, layout, spy.seen, captured, R))
+        expect.append(("collapse", ref, err, real_stats, layout, spy.seen, captured, (R, effective)))
         u_est = len(set(int(x) for x in refidx))
         if not spy.seen and err is None:
             ck.count("diag/row-helper-not-observed")
@@ -414,7 +479,8 @@ def check_collapse(ck, ds, case, valid, use_model, tag, custom):
         kind, ref = ex[0], ex[1]
         what_case = dict(case, check=f"{tag}{kind} ref={ref}")
         if kind == "collapse":
-            _, _, err, real_stats, layout, seen, captured, R = ex
+            _, _, err, real_stats, layout, seen, captured, (R, effective) = ex
+            std_ = {k for k in DEFAULT_FNS if effective.get(k) == k}       # statistics not overridden by the user
             if err is not None or not line.startswith("ok"):
                 if (err or "ok") != line.split(" | ")[0]:
                     ck.disagree(f"collapse ref={ref}: model {line[:40]} vs code {err or 'ok'}", what_case)
@@ -444,7 +510,7 @@ def check_collapse(ck, ds, case, valid, use_model, tag, custom):
             bad = None
             for local, wdt in layout:
                 got = real_stats.get(local, {})
-                if any(fn not in got or got[fn].shape != (U, wdt) for fn in ("mean", "std", "number")):
+                if any(fn not in got or got[fn].shape != (U, wdt) for fn in DEFAULT_FNS):
                     bad = f"{local}: shapes {[(fn, got[fn].shape) for fn in got]} vs model {(U, wdt)}"
                     break
                 for j in range(U):
@@ -452,22 +518,25 @@ def check_collapse(ck, ds, case, valid, use_model, tag, custom):
                         cnt, sm, sq = stats[j * width + col0 + c]
                         mean_s, var_s = mv[j * width + col0 + c].split(";")
                         gm, gs, gn = got["mean"][j, c], got["std"][j, c], got["number"][j, c]
-                        if int(gn) != cnt:
+                        if "number" in std_ and int(gn) != cnt:
                             bad = f"{local}[{j},{c}] number {gn} vs model {cnt}"
                         elif cnt == 0:
-                            if not (math.isnan(gm) and math.isnan(gs) and mean_s == "n" and var_s == "n"):
+                            if ("mean" in std_ and not math.isnan(gm)) or ("std" in std_ and not math.isnan(gs)) \
+                                    or mean_s != "n" or var_s != "n":
                                 bad = f"{local}[{j},{c}] empty bin: code mean {gm} std {gs}, model {mean_s} {var_s}"
                         else:
                             mq, vq = Fraction(mean_s), Fraction(var_s)
-                            if math.isnan(gm) or round(gm * cnt) != sm or gm != float(mq) and abs(gm - float(mq)) > 1e-12 * max(1, abs(float(mq))):
+                            if "mean" in std_ and (math.isnan(gm) or round(gm * cnt) != sm or
+                                                   gm != float(mq) and abs(gm - float(mq)) > 1e-12 * max(1, abs(float(mq)))):
                                 bad = f"{local}[{j},{c}] mean*count {gm * cnt} vs model sum {sm}"
-                            else:
+                            elif "std" in std_:
                                 ld = _np().longdouble
                                 sd = float(_np().sqrt(ld(vq.numerator) / ld(vq.denominator)))
                                 if math.isnan(gs) or abs(gs - sd) > 1e-12 * max(1.0, sd):
                                     bad = f"{local}[{j},{c}] std {gs} vs model sqrt({var_s}) = {sd}"
-                        if bad is None and "sum" in got and float(got["sum"][j, c]) != float(sm):
-                            bad = f"{local}[{j},{c}] custom sum {got['sum'][j, c]} vs model {sm}"
+                        for oname, fid in effective.items():
+                            if bad is None and fid == "nansum" and float(got[oname][j, c]) != float(sm):
+                                bad = f"{local}[{j},{c}] custom nansum ({oname}) {got[oname][j, c]} vs model {sm}"
                         if bad:
                             break
                     if bad:
@@ -533,12 +602,15 @@ def check_expand(ck, ds, case, valid, use_model, tag):
     n = pairs.shape[1]
     what_case = dict(case, check=f"{tag}expand")
     err, e = None, None
+    arg = ds.copy(deep=True)
     try:
-        e = expand(ds.copy(deep=True))
+        e = expand(arg)
     except Exception as ex:  # noqa
         err = exc_kind(ex)
     if valid and err:
         ck.violation("expand-exception", f"expand raised {err} on a valid compact dataset", what_case)
+    if valid and err is None and not arg.identical(ds):
+        ck.violation("expand-mutates-input", "expand modified the dataset passed in", what_case)
     if err is None and valid:
         # oracle: explicit loop over the pairs, every variable on a collocation dimension
         if e.sizes.get("collocation") != n:
@@ -742,8 +814,9 @@ def gen_pairs(rng, style, size):
 def gen_layout(rng):
     g = rng.choice([("primary", "secondary"), ("primary", "secondary"), ("MHS", "AVHRR"), ("b", "a")])
     C = rng.choice([0, 1, 3, 3, 5])
-    return {"groups": list(g), "C": C, "q": C > 0 and rng.random() < 0.35, "z": C > 0 and rng.random() < 0.25,
-            "L": rng.choice([1, 2]), "shared_dim": rng.random() < 0.3,
+    return {"groups": list(g), "C": C, "q": C > 0 and rng.random() < 0.35, "z": C > 0 and rng.random() < 0.45,
+            "L": rng.choice([1, 2, C, C]) if C else 1, "zpos": rng.randrange(3), "z4": rng.random() < 0.2,
+            "shared_dim": rng.random() < 0.3,
             "vmax": rng.choice([3, 20, 20, 1000]), "nan": rng.choice([0.0, 0.0, 0.15, 0.5, 0.95]),
             "hidden": rng.random() < 0.3}
 
@@ -778,7 +851,15 @@ def gen_ds(rng, layout, size, style=None, sort=None, idbase=0):
         if layout["q"]:
             v["q"] = {"dims": [chdim, f"{g}/collocation"], "data": gen_values(rng, (C, npts), layout["vmax"], layout["nan"])}
         if layout["z"]:
-            v["z"] = {"dims": [f"{g}/collocation", chdim, f"{g}/level"], "data": gen_values(rng, (npts, C, L), 9, layout["nan"])}
+            # a matrix per point: two (or three) extra dimensions of equal or unequal length, the collocation
+            # dimension first, in the middle or last (the second group uses another position)
+            extra = [(chdim, C), (f"{g}/level", L)] + ([(f"{g}/pol", 2)] if layout.get("z4") else [])
+            pos = (layout.get("zpos", 0) + (0 if g == g0 else 1)) % (len(extra) + 1)
+            dims = [e[0] for e in extra]
+            shape = [e[1] for e in extra]
+            dims.insert(pos, f"{g}/collocation")
+            shape.insert(pos, npts)
+            v["z"] = {"dims": dims, "data": gen_values(rng, shape, 9, layout["nan"])}
         if layout["hidden"]:
             v["__idx"] = {"dims": [f"{g}/collocation"], "data": [i for i in range(npts)]}
         if layout.get("nc"):      # variables that do not live on the collocation dimension
@@ -801,11 +882,12 @@ def malform(rng, d):
             if f"{g}/collocation" not in v["dims"]:
                 continue
             ax = v["dims"].index(f"{g}/collocation")
-            if ax == 0:
-                proto = v["data"][0]
-                v["data"] = v["data"] + [proto] * k
-            else:  # dims (channel, collocation)
-                v["data"] = [row + [row[0]] * k for row in v["data"]]
+
+            def rec(x, depth):
+                if depth == ax:
+                    return x + [x[0]] * k
+                return [rec(y, depth + 1) for y in x]
+            v["data"] = rec(v["data"], 0)
         d["n"][g] = old + k
     if kind == "extra-ref-point":
         grow(g0)
@@ -980,6 +1062,8 @@ def point_ds(n, lat, lon, t, bt, idbase, grid=None):
         "lat": ("c", np.array(lat, dtype=float)), "lon": ("c", np.array(lon, dtype=float)),
         "x": ("c", np.arange(n) * 1.0 + idbase),
         "bt": (("c", "channel"), from_nested(bt).reshape(n, -1)),
+        # a matrix per point, stored with the point dimension LAST
+        "mat": (("i", "j", "c"), (np.arange(4 * n).reshape(2, 2, n) % 7 + idbase % 3).astype(float)),
     }, coords={"c": np.arange(n)})
 
 
@@ -1141,15 +1225,125 @@ def gen_ds_case(rng, big):
     return case
 
 
-def run_case(ck, case, use_model=True):
+# ------------------------------------------------------------------ histories / hidden state
+_CANARY = {"groups": ["primary", "secondary"], "pairs": [[0, 0, 1], [1, 0, 1]], "n": {"primary": 2, "secondary": 2}, "t0": 0,
+           "vars": {"primary": {"x": {"dims": ["primary/collocation"], "data": [1, 2]}},
+                    "secondary": {"x": {"dims": ["secondary/collocation"], "data": [4, 8]}}}}
+_BASELINE = {}
+
+
+def state_canary():
+    """default collapse + expand of a fixed tiny dataset: variable names and values.  Must be the same at
+    every moment of a process — collapse/expand are functions of their arguments."""
+    from typhon.collocations import collapse, expand
+    ds = build_ds(_CANARY)
+    out = []
+    with warnings.catch_warnings():
+        warnings.simplefilter("ignore")
+        for r in (collapse(ds.copy(deep=True)), collapse(ds.copy(deep=True), reference="secondary"), expand(ds.copy(deep=True))):
+            out.append(tuple((str(k), tuple(r[k].dims), r[k].values.astype(str).tolist().__repr__()) for k in r.variables))
+    return tuple(out)
+
+
+def canary_check(ck, history):
+    """compare the canary with the one taken at the start of the process; `history` = the cases run since"""
+    try:
+        now = state_canary()
+    except Exception as e:  # noqa
+        now = ("raised", type(e).__name__)
+    if "v" not in _BASELINE:
+        _BASELINE["v"] = now
+        return True
+    if now == _BASELINE["v"]:
+        return True
+    base = _BASELINE["v"]
+    diff = "results differ"
+    if isinstance(now, tuple) and len(now) == 3 and len(base) == 3 and now[0] != ("raised",):
+        for a, b in zip(base, now):
+            na, nb = [x[0] for x in a], [x[0] for x in b]
+            if na != nb:
+                diff = f"variables {nb} instead of {na}"
+                break
+            ch = [x[0] for x, y in zip(a, b) if x != y]
+            if ch:
+                diff = f"values of {ch[:4]} changed"
+                break
+    ck.violation("hidden-state", "collapse/expand with default arguments on a fixed dataset give another result after the "
+                 f"preceding call(s) than at the start of the process: {diff}", {"op": "sequence", "cases": history})
+    ck._polluted = True
+    ck.notes.append("a hidden-state leak was found: exploration stopped (later results of this process cannot be judged)")
+    return False
+
+
+def run_history_case(ck, case, use_model):
+    """a sequence of collapse / expand calls in one process; every call is judged on its own by the oracle
+    (and the model), so an earlier call with custom collapsers must not influence a later default call"""
+    dss = [build_ds(d) for d in case["list"]]
+    import numpy as np
+    for k, st in enumerate(case["steps"]):
+        d, ds = case["list"][st["ds"]], dss[st["ds"]]
+        valid = is_valid(np.array(d["pairs"], dtype=int).reshape(2, -1), d["n"][d["groups"][0]], d["n"][d["groups"][1]]) \
+            and len(d["pairs"][0]) > 0
+        if st["fn"] == "collapse":
+            check_collapse(ck, ds, case, valid, use_model, f"step {k} ", st.get("collapser") or False, refs=(st.get("ref", 0),))
+        else:
+            check_expand(ck, ds, case, valid, use_model, f"step {k} ")
+    kinds = ["custom" if st.get("collapser") else "default" for st in case["steps"] if st["fn"] == "collapse"]
+    leak_shape = any(a == "custom" and "default" in kinds[i + 1:] for i, a in enumerate(kinds))
+    ck.case(key=json.dumps([case["steps"], [d["pairs"] for d in case["list"]]])[:4000] if leak_shape else None,
+            kind="history/" + ("custom-then-default" if leak_shape else "other"),
+            sample={"steps": case["steps"][:6]})
+
+
+def gen_history_case(rng):
+    layout = gen_layout(rng)
+    layout["nc"] = rng.random() < 0.3
+    lst = [gen_ds(rng, layout, rng.randint(1, 25), idbase=1000 * i) for i in range(rng.choice([1, 2]))]
+    names = ["mean", "std", "number"]
+    fids = ["nansum", "nanmax0", "count2", "first"]
+    steps = []
+    for _ in range(rng.randint(1, 2)):
+        spec = {}
+        r = rng.random()
+        if r < 0.7:                                   # override one or two standard names
+            for nm in rng.sample(names, rng.choice([1, 1, 2])):
+                spec[nm] = rng.choice(fids[:3])
+        if r > 0.4 or not spec:                       # and / or add new names
+            for nm in rng.sample(["sum", "maxi", "twice"], rng.choice([1, 2])):
+                spec[nm] = rng.choice(fids)
+        steps.append({"ds": rng.randrange(len(lst)), "fn": "collapse", "ref": rng.randrange(2), "collapser": spec})
+        for _ in range(rng.randint(1, 3)):            # later calls with default arguments, same and other dataset
+            if rng.random() < 0.25:
+                steps.append({"ds": rng.randrange(len(lst)), "fn": "expand"})
+            else:
+                steps.append({"ds": rng.randrange(len(lst)), "fn": "collapse", "ref": rng.randrange(2), "collapser": None})
+    return {"op": "history", "list": lst, "steps": steps}
+
+
+def run_case(ck, case, use_model=True, top=True):
+    if top and getattr(ck, "_polluted", False):
+        ck.count("skipped/after-hidden-state-leak")
+        return
+    if top and "v" not in _BASELINE:
+        canary_check(ck, [])                          # baseline of a fresh process
     if case["op"] == "ds":
         run_ds_case(ck, case, use_model)
+    elif case["op"] == "history":
+        run_history_case(ck, case, use_model)
+    elif case["op"] == "sequence":
+        for c in case["cases"]:
+            run_case(ck, c, use_model, top=False)
     else:
         run_collocate_case(ck, case, use_model)
+    if top:
+        hist = case["cases"] if case["op"] == "sequence" else [case]
+        canary_check(ck, [{k: v for k, v in c.items() if k != "check"} for c in hist])
 
 
-def explore(ck, n_ds, n_inj, n_col, big, use_model=True):
+def explore(ck, n_ds, n_inj, n_col, big, use_model=True, n_hist=None):
     rng = ck.rng
+    for _ in range(max(4, n_ds // 8) if n_hist is None else n_hist):      # histories first: the process is still fresh
+        run_case(ck, gen_history_case(rng), use_model)
     for _ in range(n_ds):
         run_case(ck, gen_ds_case(rng, big), use_model)
     for _ in range(n_inj):
